@@ -487,7 +487,51 @@ def _mrg_pass(u, roles, needs_object, R):
                             (_is_kind_test(nn.expr, 'cJSON_IsObject') == v or
                              (_is_kind_test(nn.expr, 'cJSON_IsObject') is not None and
                               _is_kind_test(nn.expr, 'cJSON_IsObject') in (states.get(nn.id) or ()))))
+            pruned = None
+            if not ok:
+                # the copy of an object patch is fine when its null members are taken out again before anyone sees it: the copy is
+                # kept in a local that is handed to a pruner (judged on its own: MRG5) and only then returned or linked
+                par = fn.parents().get(c['id'])
+                while par is not None and par.get('k') == 'cast':
+                    par = fn.parents().get(par['id'])
+                dest = None
+                if par is not None and par.get('k') == 'bin' and par['op'] == '=' and is_ref(par['l']):
+                    dest = strip_casts(par['l'])['d']
+                else:
+                    for d_ in fn.locals():
+                        if 'init' in d_ and any(x is c for x in walk(d_['init'])):
+                            dest = d_['d']
+                if dest is not None:
+                    pruners = _null_pruners(u)
+                    for c2 in fn.calls():
+                        if callee_name(c2) in pruners and c2.get('args') and strip_casts(c2['args'][0]).get('k') == 'ref' and \
+                                strip_casts(c2['args'][0])['d'] == dest:
+                            pn_ = node_containing(cfg, c2)
+                            # every use of the copy other than the NULL test lies behind the pruner
+                            uses = [m for m in cfg.nodes if m.id != pn_.id and m.id != node.id and m.kind in ('stmt', 'return', 'decl') and
+                                    any(x.get('k') == 'ref' and x.get('d') == dest for x in walk(
+                                        m.expr if m.expr is not None else (m.decl.get('init') if m.decl else {}) or {}))]
+                            # what can be reached from the copy without passing the pruner, on paths where the copy is not NULL
+                            seen_ = set()
+                            work_ = [node.id]
+                            while work_:
+                                x_ = work_.pop()
+                                for (y_, l_) in cfg.succ[x_]:
+                                    nn_ = cfg.nodes[x_]
+                                    if nn_.kind == 'branch' and l_ is not None and l_[0] in ('T', 'F') and nn_.expr is not None:
+                                        ref_, isnull_ = _null_edge_of(nn_.expr)
+                                        if ref_ is not None and ref_.get('d') == dest and l_[0] == isnull_:
+                                            continue
+                                    if y_ == pn_.id or y_ in seen_:
+                                        continue
+                                    seen_.add(y_)
+                                    work_.append(y_)
+                            if all(m.id in cfg.reachable(pn_.id) and m.id not in seen_ for m in uses):
+                                pruned = callee_name(c2)
+            if pruned:
+                ok = True
             R.ob('MRG1', fn, c, 'patch value %s is copied verbatim only when it is not an object' % a['n'], ok,
+                 ('the copy is handed to %s, which takes the null members out again, before it is used' % pruned) if pruned else
                  'reachable only through the false edge of cJSON_IsObject(%s)' % a['n'] if ok else
                  'cJSON_Duplicate(%s) can be reached while %s is an object: its null members would be copied into the result '
                  'instead of deleting (RFC 7396: an object patch is merged member by member)' % (a['n'], a['n']),
@@ -1295,6 +1339,48 @@ def esc4(units, R, floor=1):
                  '%s reads its argument as a pointer token (it ends up as the second argument of compare_pointers), but %s holds the '
                  'decoded name here: a \'~\' or \'/\' in the name is decoded a second time' % (bad[1], v['n']), key='decoded:%s' % v['n'])
     R.floor('ESC4', 'tokens decoded in place', n, floor)
+
+
+def _null_pruners(u):
+    """static functions of one container parameter that delete the null children of it: name -> (function, list of recursion calls)"""
+    out = {}
+    for h in u.function_list:
+        if h.body is None or not h.static or len(h.params) != 1:
+            continue
+        deletes = False
+        for c in h.calls():
+            cn = callee_name(c)
+            if cn in ('cJSON_Delete', 'cJSON_DeleteItemFromObject', 'cJSON_DeleteItemFromObjectCaseSensitive', 'cJSON_DeleteItemFromArray'):
+                node = h.cfg().node_of_expr(c['id'])
+                if node is not None and guarded_by(h.cfg(), node.id, lambda nn, l: nn.kind == 'branch' and l is not None and l[0] == 'T' and
+                                                   _is_kind_test(nn.expr, 'cJSON_IsNull') is not None):
+                    deletes = True
+        if deletes:
+            out[h.name] = (h, [c for c in h.calls() if callee_name(c) == h.name])
+    return out
+
+
+def mrg5(units, R, floor=0):
+    """RFC 7396: null means "delete" only as a member of an object of the patch; an array in the patch is a value as a whole and is
+    taken over verbatim - null elements and whatever the objects inside it contain.  A function that takes the null children out of
+    a copy of the patch therefore (a) deletes a null child only where the container is known to be an object or the function is only
+    ever entered with objects, and (b) descends only into children known to be objects."""
+    u = units['cJSON_Utils.c']
+    n = 0
+    for name, (h, rec) in sorted(_null_pruners(u).items()):
+        cfg = h.cfg()
+        for c in rec:
+            n += 1
+            a = strip_casts(c['args'][0])
+            node = cfg.node_of_expr(c['id'])
+            v = a.get('d') if a.get('k') == 'ref' else None
+            ok = node is not None and v is not None and guarded_by(
+                cfg, node.id, lambda nn, l: nn.kind == 'branch' and l is not None and l[0] == 'T' and _is_kind_test(nn.expr, 'cJSON_IsObject') == v)
+            R.ob('MRG5', h, c, '%s descends only into children that are objects' % name, ok,
+                 'reachable only through the true edge of cJSON_IsObject(%s)' % a.get('n') if ok else
+                 'the descent into %s can be reached for a child that is an array: null members of objects inside an array of the '
+                 'patch would be deleted, but the array is a value as a whole (RFC 7396)' % expr_str(a)[:30], key='descend:%s' % name)
+    R.floor('MRG5', 'descents of null pruners', n, floor)
 
 
 # ---- DIG1: digit-counting loops agree with their radix ----------------------------------------------------------------------
